@@ -413,10 +413,14 @@ package valid
 // ---------------------------------------------------------------------------
 // C13: validator objects. Object invariants (established by the constructors, required by every method).
 
-//@ pred vs.ok(v *valid.VStruct) = v != nil && v.errBuf != nil && v.vc != nil
-//@ pred vv.ok(v *valid.VVar) = v != nil && v.errBuf != nil && v.vc != nil
-//@ pred vm.ok(v *valid.VMap) = v != nil && v.errBuf != nil && v.vc != nil
-//@ pred vu.ok(v *valid.VUrl) = v != nil && v.errBuf != nil && v.vc != nil
+// group buckets (either/botheq): every recorded member is a live record carrying a valid, readable value
+//@ pred bucket.ok(b []*valid.name2Value) = forall(j Int :: {b[j]} 0 <= j && j < len(b) ==> b[j] != nil && allocated(b[j]) && rv.valid(b[j].reflectVal) && !rv.ro(b[j].reflectVal))
+//@ pred vc.ok(c *valid.validCommon) = c != nil && (c.valid2FieldsMap != nil ==> forall(k String :: has(c.valid2FieldsMap, k) ==> bucket.ok(c.valid2FieldsMap[k]) && allocated(sliceptr(c.valid2FieldsMap[k])))
+//@     && forall(k1 String, k2 String :: has(c.valid2FieldsMap, k1) && has(c.valid2FieldsMap, k2) && k1 != k2 ==> sliceptr(c.valid2FieldsMap[k1]) != sliceptr(c.valid2FieldsMap[k2])))
+//@ pred vs.ok(v *valid.VStruct) = v != nil && v.errBuf != nil && vc.ok(v.vc)
+//@ pred vv.ok(v *valid.VVar) = v != nil && v.errBuf != nil && vc.ok(v.vc)
+//@ pred vm.ok(v *valid.VMap) = v != nil && v.errBuf != nil && vc.ok(v.vc)
+//@ pred vu.ok(v *valid.VUrl) = v != nil && v.errBuf != nil && vc.ok(v.vc)
 
 //@ func RemoveValuePtr
 //@   modifies nothing
@@ -491,10 +495,10 @@ package valid
 //@ pred field.ok(ty, tag, j, f valid.structFieldInfo) = ite(rt.fieldType(ty, j) == timeReflectType, fi.zero(f),
 //@     f.export == isExp(rt.fieldName(ty, j)) && f.offset == j && f.name == rt.fieldName(ty, j) && f.validNames == tagGet(rt.fieldTag(ty, j), tag))
 //@ pred entry.ok(ty, tag, x valid.structType) = x.name == rt.name(ty) && len(x.fieldInfos) == rt.numField(ty) && allocated(sliceptr(x.fieldInfos))
-//@     && forall(j Int :: 0 <= j && j < rt.numField(ty) ==> field.ok(ty, tag, j, x.fieldInfos[j]))
+//@     && forall(j Int :: {x.fieldInfos[j]} 0 <= j && j < rt.numField(ty) ==> field.ok(ty, tag, j, x.fieldInfos[j]))
 //@ pred key.ty(k) = as(unbox("S.valid.structTypeCacheKey", k), "valid.structTypeCacheKey").ty
 //@ pred key.tag(k) = as(unbox("S.valid.structTypeCacheKey", k), "valid.structTypeCacheKey").tag
-//@ pred cache.inv() = cacheStructType != nil && forall(k Iface, x Iface :: cache.stored(k, x) && itag(k) == tagof("valid.structTypeCacheKey") ==>
+//@ pred cache.inv() = valid.cacheStructType != nil && forall(k Iface, x Iface :: cache.stored(k, x) && itag(k) == tagof("valid.structTypeCacheKey") ==>
 //@     itag(x) == tagof("valid.structType") && entry.ok(key.ty(k), key.tag(k), as(unbox("S.valid.structType", x), "valid.structType")))
 
 //@ func (*VStruct).getCacheStructType
@@ -507,3 +511,71 @@ package valid
 //@   loop#0 invariant forall(j Int :: fieldNum <= j && j < l ==> fi.zero(obj.fieldInfos[j]))
 //@   loop#0 invariant cache.inv()
 //@   loop#0 decreases l - fieldNum
+
+// ---------------------------------------------------------------------------
+// VStruct: constructor, walker, nested validation
+
+//@ func ValidNamesSplit
+//@   modifies nothing
+//@   ensures fresh(sliceptr(result)) || result == nil
+//@   loop#0 invariant fresh(sliceptr(res)) && fresh(sliceptr(tmp)) && stack != nil && fresh(stack) && (sliceptr(stack.data) == 0 || fresh(sliceptr(stack.data)))
+//@   loop#0 invariant 0 <= i && l == len(s)
+//@   loop#0 decreases l - i
+
+//@ func NewVStruct
+//@   requires cache.inv()
+//@   ensures vs.ok(result) && cache.inv() && result.ruleMap == nil
+
+//@ func (*VStruct).free
+//@   requires vs.ok(v)
+//@   modifies sb.content(v.errBuf), v.ruleMap, v.vc
+
+//@ func (*VStruct).SetRule
+//@   requires vs.ok(v)
+//@   requires [C13 setrule.key] len(obj) == 1 ==> obj[0] != nil
+//@   modifies v.ruleMap, mapof(v.ruleMap)
+//@   ensures result == v && vs.ok(v)
+
+//@ func (*VStruct).required
+//@   requires vs.ok(v) && cache.inv() && rv.valid(tv) && !rv.ro(tv)
+//@   modifies sb.content(v.errBuf), sb.nw(v.errBuf), cache.stored, lst.mem, lst.stamp, lst.size, mu.held, mu.acq, cb.count, cb.key, cb.val, "H.container/list.Element.Value", v.vc.valid2FieldsMap, "MapDom.String.Slice", "MapVal.String.Slice", "MapLen.String.Slice", "Mem.Int"
+//@   ensures vs.ok(v) && cache.inv()
+
+//@ func (*VStruct).exist
+//@   requires vs.ok(v) && cache.inv() && rv.valid(tv) && !rv.ro(tv)
+//@   modifies sb.content(v.errBuf), sb.nw(v.errBuf), cache.stored, lst.mem, lst.stamp, lst.size, mu.held, mu.acq, cb.count, cb.key, cb.val, "H.container/list.Element.Value", v.vc.valid2FieldsMap, "MapDom.String.Slice", "MapVal.String.Slice", "MapLen.String.Slice", "Mem.Int"
+//@   ensures vs.ok(v) && cache.inv()
+//@   loop#0 invariant vs.ok(v) && cache.inv()
+//@   loop#1 invariant vs.ok(v) && cache.inv() && iter != nil && mi.src(iter) == tv && mi.pos(iter) >= -1
+
+//@ func (*VStruct).validate
+//@   requires vs.ok(v) && cache.inv() && !rv.ro(value)
+//@   modifies sb.content(v.errBuf), sb.nw(v.errBuf), cache.stored, lst.mem, lst.stamp, lst.size, mu.held, mu.acq, cb.count, cb.key, cb.val, "H.container/list.Element.Value", v.vc.valid2FieldsMap, "MapDom.String.Slice", "MapVal.String.Slice", "MapLen.String.Slice", "Mem.Int"
+//@   ensures result == v && vs.ok(v) && cache.inv()
+//@   loop#0 invariant vs.ok(v) && cache.inv() && 0 <= fieldNum && totalFieldNum == len(cacheStructType.fieldInfos) && entry.ok(ty, v.targetTag, cacheStructType)
+//@   loop#1 invariant vs.ok(v) && cache.inv() && entry.ok(ty, v.targetTag, cacheStructType) && 0 <= fieldNum && fieldNum < totalFieldNum
+
+//@ func (*validCommon).initValid2FieldsMap
+//@   requires vc.ok(v) && (data != nil ==> rv.valid(data.reflectVal) && !rv.ro(data.reflectVal))
+//@   modifies v.valid2FieldsMap, "MapDom.String.Slice", "MapVal.String.Slice", "MapLen.String.Slice", "Mem.Int"
+//@   ensures vc.ok(v)
+
+//@ func (*validCommon).either
+//@   requires errBuf != nil && bucket.ok(fieldInfos)
+//@   modifies sb.content(errBuf), sb.nw(errBuf)
+
+//@ func (*validCommon).bothEq
+//@   requires errBuf != nil && bucket.ok(fieldInfos)
+//@   modifies sb.content(errBuf), sb.nw(errBuf)
+
+//@ func (*validCommon).valid
+//@   requires vc.ok(v) && errBuf != nil
+//@   modifies sb.content(errBuf), sb.nw(errBuf)
+
+//@ func (*VStruct).getError
+//@   requires vs.ok(v)
+
+//@ func (*VStruct).Valid
+//@   requires vs.ok(v) && cache.inv()
+//@   loop#0 invariant vs.ok(v) && cache.inv()
+//@   loop#1 invariant vs.ok(v) && cache.inv() && iter != nil && mi.src(iter) == reflectValue && mi.pos(iter) >= -1
